@@ -16,7 +16,33 @@ pub fn beat() {
     HEARTBEAT[s % 64].fetch_add(1, Ordering::Relaxed);
 }
 
+/// A second flavour that receives every request the primary receives (mixed-backend / mixed-version cluster).
+#[derive(Clone)]
+pub struct Twin {
+    pub lib: &'static dyn Lib,
+    /// name of the primary flavour whose calls are mirrored
+    pub primary: &'static str,
+    /// property charged with a disagreement (C18 / C19)
+    pub property: &'static str,
+    pub invariant: &'static str,
+    /// returns true when the comparison of this call must be skipped (named exclusions)
+    pub exclude: fn(Op, &[&[u8]], &Out, &Out) -> bool,
+}
+
+/// Operations whose output depends on fresh randomness (or that return nothing comparable):
+/// only the outcome kind is compared; their artefacts are then cross-consumed by later calls.
+/// (`Split` with a caller-supplied RNG: share sets are randomized artefacts — how a back end turns RNG
+/// output into polynomial coefficients is not part of any wire format.)
+pub fn is_randomized(op: Op) -> bool {
+    matches!(
+        op,
+        Op::KeyNew | Op::KeyNewViaBls | Op::SplitEntropy | Op::Split | Op::PokCommit | Op::ChallengeNew | Op::ChallengeNewViaBls | Op::PokTsGenerate | Op::SignCrypt | Op::TimeLock | Op::EgEncrypt | Op::EgEncryptProof | Op::EnumNew | Op::Exercise
+    )
+}
+
 pub struct Rec {
+    pub twin: Option<Twin>,
+    pub twin_compared: u64,
     /// the property this run decides; oracles of other properties are inert
     pub property: String,
     pub violations: Vec<Violation>,
@@ -40,6 +66,8 @@ pub struct Rec {
 impl Rec {
     pub fn new(property: &str) -> Rec {
         Rec {
+            twin: None,
+            twin_compared: 0,
             property: property.to_string(),
             violations: vec![],
             evals: 0,
@@ -139,6 +167,37 @@ impl Rec {
             }
         }
         self.verdict_log = digest_bytes(self.verdict_log, &[op as u8, out.kind().as_bytes()[0]]);
+        if let Some(tw) = self.twin.clone() {
+            if lib.name() == tw.primary {
+                beat();
+                self.stats.lib_calls += 1;
+                let other = tw.lib.call(g, op, args);
+                if !(tw.exclude)(op, args, &out, &other) {
+                    self.twin_compared += 1;
+                    self.evals += 1;
+                    let same = if is_randomized(op) { out.kind() == other.kind() } else {
+                        match (&out, &other) {
+                            (Out::Ok(a), Out::Ok(b)) => a == b,
+                            (Out::Rej(_), Out::Rej(_)) => true,
+                            (Out::Panic(_), Out::Panic(_)) => true,
+                            _ => false,
+                        }
+                    };
+                    self.verdict_log = digest_bytes(self.verdict_log, &[same as u8]);
+                    if !same {
+                        let brief = |o: &Out| match o {
+                            Out::Ok(v) => format!("Ok({})", v.iter().map(|b| { let h = crate::plan::hex(&b[..b.len().min(10)]); if b.len() > 10 { format!("{}..{}B", h, b.len()) } else { h } }).collect::<Vec<_>>().join(",")),
+                            Out::Rej(s) => format!("Err({})", s),
+                            Out::Panic(s) => format!("ABORT({})", s),
+                        };
+                        let detail = format!("{:?} g={} | {} says {} but {} says {}; first arg {}", op, g.name(), lib.name(), brief(&out), tw.lib.name(), brief(&other), args.first().map(|a| crate::plan::hex(&a[..a.len().min(16)])).unwrap_or_default());
+                        self.push_violation(tw.property, tw.invariant, detail);
+                    }
+                } else {
+                    self.stats.probe("twin-comparison-excluded-by-name");
+                }
+            }
+        }
         if self.panic_is_violation {
             // in no-abort mode every consuming call that returned normally is one evaluation
             self.evals += 1;
